@@ -253,7 +253,7 @@ class WalkCall(VU):
 
     def __init__(self, bulk, k, n_roots=1):
         self.bulk, self.k, self.n = bulk, k, n_roots
-        self.props = ("C02", "C16") if bulk else ("C01", "C16")
+        self.props = ("C02", "C16", "C05") if bulk else ("C01", "C16")
         self.target = "puresnmp.api.raw:Client.%s" % ("bulkwalk" if bulk else "walk")
         self.functions = (self.target,)
         self.name = "Client.%s[%d roots, stream of %d]" % ("bulkwalk" if bulk else "walk", n_roots, k)
@@ -307,6 +307,11 @@ class WalkCall(VU):
                 fa = calls["fetcher"]
                 used = (fa[0][0][0] if fa[0][0] else fa[0][1].get("bulk_size")) if len(fa) == 1 else None
                 size_ok = isinstance(used, (int, SInt)) and not isinstance(used, bool) and lift_bool(zint(used) >= 1)
+                if p == "C05":
+                    # the datagrams of a bulk walk carry the caller's max-repetitions
+                    ctx.check(oname(p, T, "ensures", "with-a-bulk-fetcher-for-exactly-the-callers-bulk-size"),
+                              And(size_ok, interp.eq(used, size), k.get("fetcher") is marker or (len(a) > 1 and a[1] is marker)))
+                    continue
                 ctx.check(oname(p, T, "ensures", "with-a-bulk-fetcher-for-at-least-one-repetition"),
                           And(size_ok, k.get("fetcher") is marker or (len(a) > 1 and a[1] is marker)))
             else:
@@ -318,8 +323,73 @@ class WalkCall(VU):
         return "returns"
 
 
+
+class BulkFetcher(VU):
+    """Client._bulkwalk_fetcher(size): the fetcher the bulk walk uses asks bulkget for exactly the requested OIDs as repeaters,
+    no non-repeaters, and max-repetitions = the size it was built for (C05: the datagram carries the caller's value), and
+    hands back the listing as VarBinds in the listing's order (C02)."""
+    props = ("C05", "C02")
+    label = "proved-shape-bounded(number of OIDs and of listing entries enumerated)"
+    target = "puresnmp.api.raw:Client._bulkwalk_fetcher"
+    functions = (target,)
+
+    def __init__(self, n, k):
+        self.n, self.k = n, k
+        self.name = "Client._bulkwalk_fetcher[%d oids, listing of %d]" % (n, k)
+
+    def setup(self, rt, interp):
+        self.rt = rt
+        if rt.oid is None:
+            rt.oid = OidTheory(rt)
+        self.xv = XValTheory(rt, interp)
+
+    def run(self, interp):
+        ctx, rt = interp.ctx, self.rt
+        calls = []
+        listing = PDict([(ctx.fresh_oid("l%d" % j), self.xv.fresh(ctx, "lv%d" % j)) for j in range(self.k)])
+        for i in range(self.k):
+            for j in range(i + 1, self.k):
+                ctx.assume(Not(interp.eq(listing.pairs[i][0], listing.pairs[j][0])))
+        result = NT(get_cls(rt, interp, "puresnmp.util:BulkResult"), [PDict(), listing])
+
+        def bulkget_hook(i, c, a, k):
+            calls.append((a[1:], k))
+            return result
+        rt.hooks["puresnmp.api.raw:Client.bulkget"] = bulkget_hook
+        client = bare_client(rt, interp)
+        size = ctx.fresh_int("bulk_size")
+        ctx.assume(size >= 1)
+        mk = get_func(rt, interp, self.target)
+        fetcher = interp.call(BoundMethod(mk, client), [size], {})
+        oids = [ctx.fresh_oid("q%d" % j) for j in range(self.n)]
+        out = interp.call(fetcher, [list(oids)], {})
+        T = self.target
+        ok = len(calls) == 1
+        for p in self.props:
+            ctx.check(oname(p, T, "ensures", "one-get-bulk-per-fetch"), ok)
+        if not ok:
+            return "?"
+        a, k = calls[0]
+        names = ["scalar_oids", "repeating_oids", "max_list_size"]
+        got = dict(zip(names, a))
+        got.update(k)
+        sc, rp, mx = got.get("scalar_oids"), got.get("repeating_oids"), got.get("max_list_size", 1)
+        ctx.check(oname("C05", T, "ensures", "no-non-repeaters-the-requested-oids-as-repeaters-and-the-fetchers-size-as-max-repetitions"),
+                  isinstance(sc, list) and len(sc) == 0 and isinstance(rp, list) and len(rp) == self.n
+                  and And(interp.eq(mx, size), *[interp.eq(x, y) for x, y in zip(rp, oids)]))
+        ctx.check(oname("C02", T, "ensures", "the-requested-oids-as-repeaters-with-at-least-one-repetition"),
+                  isinstance(rp, list) and len(rp) == self.n and isinstance(mx, (int, SInt)) and And(
+                      lift_bool(zint(mx) >= 1), *[interp.eq(x, y) for x, y in zip(rp, oids)]))
+        items = interp.iterate(out) if isinstance(out, (list, GenResult)) else None
+        ok = items is not None and len(items) == self.k and all(isinstance(v, NT) and len(v) == 2 for v in items)
+        ctx.check(oname("C02", T, "ensures", "hands-back-the-listing-as-varbinds-in-order"),
+                  ok and And(*[And(interp.eq(v[0], p[0]), interp.eq(v[1], p[1])) for v, p in zip(items, listing.pairs)]))
+        return "returns"
+
+
 def units_walkcall(tier):
-    return [WalkCall(b, k, n) for b in (False, True) for (k, n) in ((0, 1), (2, 1))] + [WalkCall(True, 2, 2), WalkCall(True, 0, 3)]
+    return [WalkCall(b, k, n) for b in (False, True) for (k, n) in ((0, 1), (2, 1))] + [WalkCall(True, 2, 2), WalkCall(True, 0, 3)] + [
+        BulkFetcher(n, k) for (n, k) in ((1, 0), (1, 2), (2, 3), (3, 1))]
 
 
 def units(tier):
